@@ -1,5 +1,5 @@
 """C03 — allocation failure is always signalled (DESIGN.md #C03)"""
-import subjects
+import common, subjects
 
 SPEC = dict(modules=["MemVerif.Props.C03", "MemVerif.Props.C03Coll"], gen_cfgs=("rwdi",),
             assumptions=["count*size of the traits-level array functions is computed in size_t and may wrap (finding D21, outside the proved statements)",
@@ -13,10 +13,27 @@ def run(ctx):
     cfgs = ["rwdi", "rel", "dbg"] if ctx.thorough else ["rwdi", "dbg"]
     st = subjects.run(ctx, "C03", subjects.STATIC + subjects.STACK + ["iter2", "iter3-static"], cfgs, n, ops, fail_positions=fails)
     st.update(subjects.run(ctx, "C03", subjects.POOL + subjects.COLL, cfgs, max(2, n // 2), 80, fail_positions=fails))
+    # the low-level allocators themselves: the system refuses the memory (sizes from 2^48 up to the reported maximum and beyond)
+    for cfg in (["rwdi", "dbg", "rel"]):
+        exe = ctx.harness("subj_lowlevel", cfg, flags=["-fno-access-control"])
+        rc, out, err = common.run_harness(exe, ["oom"], timeout=120)
+        cases = [l for l in out.splitlines() if l.startswith("oom-case")]
+        fails = [l[len("oracle-fail "):] for l in out.splitlines() if l.startswith("oracle-fail")]
+        ctx.coverage["evaluations"] += len(cases)
+        ctx.add_cov("lowlevel-oom/" + cfg, len(cases), len(cases), traces=1, sample=None, extra=dict(cases=len(cases)))
+        if rc != 0 or fails:
+            last = cases[-1] if cases else "-"
+            what = ("low-level allocators [%s] %s" % (cfg, fails[0])) if fails else \
+                   ("low-level allocators [%s] real code died rc=%d after `%s`: %s" % (cfg, rc, last, err.strip()[-200:]))
+            ctx.violation("C03-lowlevel-oom-%s" % cfg, what,
+                          dict(subject="lowlevel-oom", cfg=cfg, rc=rc, last_case=last, oracle=fails[:6], replay_cmd="%s oom" % exe),
+                          signature=dict(oracle="lowlevel-oom", cfg=cfg))
     ctx.coverage["rule"] = ("seeded histories with requests around every maximum (node size, array size, alignment, SIZE_MAX-64.., 2^63), "
                             "exhaustion of fixed sources (static storage, fixed_block_allocator, iteration regions, collection blocks), and an "
                             "upstream failure injected at the k-th upstream call for k in %s; compared with the model per line: exception class, "
                             "which handler ran (exactly one of out-of-memory / bad-size, or none for a propagated upstream exception), state after "
                             "the failure; oracles on the real code: throwing functions never return null, try_ functions never call the block "
-                            "source, earlier allocations keep their content, later valid requests still succeed" % (list(fails),))
+                            "source, earlier allocations keep their content, later valid requests still succeed. heap/malloc/new/virtual_memory allocators: node and array requests "
+                            "of 2^48 .. max_node_size() bytes and beyond through allocator_traits: never a pointer, never null, an exception of the "
+                            "library's two families with exactly its handler called once, and a valid request is served afterwards" % (list(fails),))
     subjects.sample(ctx, st)
